@@ -30,12 +30,15 @@ pub fn run(out: &mut Out, seed: u64, tier: &str) {
     let mut rng = Rng::new(seed ^ 0x1515);
     if !std::path::Path::new(&cli_path()).exists() { out.oracle_fail("the command-line binary was not built", &cli_path()); return; }
     let n_mols = if tier == "thorough" { 24 } else { 6 };
-    let sentinel = b"SENTINEL previous opt.xyz\n".to_vec();
+    // the previous opt.xyz is a well-formed, much longer file: a tail of it surviving the new write would still parse as atoms
+    let sentinel: Vec<u8> = { let mut t = String::from("60\nSENTINEL previous opt.xyz\n"); for k in 0..60 { t += &format!("Xe  {:11.6} {:11.6} {:11.6}\n", k as f64, 1.0, -2.0); } t.into_bytes() };
     let (mut n_runs, mut n_ok, mut n_refused) = (0usize, 0usize, 0usize);
     for k in 0..n_mols {
         let m0 = if k < 4 { library()[[0usize, 3, 4, 8][k]].clone() } else { random_mol(&mut rng) };
-        let m = distort(&m0, 0.08, &mut rng);
+        let mut m = distort(&m0, 0.08, &mut rng);
         if m.n() > 12 || m.min_distance() < 0.6 { continue; }
+        // every other molecule sits far from the origin (coordinates below -1000 and above 10000: wider than the usual columns)
+        if k % 2 == 1 { for p in m.xs.iter_mut() { p[0] += 3.0; p[1] -= 1500.0; p[2] += 12000.0; } }
         // round the coordinates to what the input file will carry, so the in-process reference starts from the same data
         let mut text = format!("{}\n\n", m.n());
         for (s, p) in m.symbols().iter().zip(m.xs.iter()) { text += &format!("{} {:.8} {:.8} {:.8}\n", s, p[0], p[1], p[2]); }
